@@ -32,6 +32,13 @@ def prep_requests(kind: str, name: str):
         data = C.msg_from_json(m).pack(M.PackingOptions())
         return [{"op": "sess_new", "name": name, "role": "server"},
                 {"op": "call", "name": name, "call": {"k": "receive", "chunk": data.hex()}}]
+    if kind == "server_registered":
+        # the application registered the harness's custom control / filter / credential types before any traffic
+        return [{"op": "sess_new", "name": name, "role": "server"}] + \
+            [{"op": "call", "name": name, "call": {"k": "register", "what": w}} for w in ("control", "filter", "auth")]
+    if kind == "client_registered":
+        return prep_requests("client_mid", name)[:1] + \
+            [{"op": "call", "name": name, "call": {"k": "register", "what": w}} for w in ("control", "filter", "auth")] + prep_requests("client_mid", name)[1:]
     if kind == "client_fresh":
         return [{"op": "sess_new", "name": name, "role": "client"}]
     if kind == "client_mid":
@@ -50,14 +57,16 @@ PREPS = ["server_fresh", "server_mid", "server_binding", "client_fresh", "client
 def valid_stream(rng, prep):
     """messages the prepared session accepts without error, as JSON"""
     msgs = []
+    custom = prep.endswith("_registered")
     if prep.startswith("server"):
         nid = 10
         n = rng.choice([1, 1, 2, 3, 4, 6])
         for _ in range(n):
             kind = rng.choice(["extReq", "searchReq", "searchReq", "extReq"])
-            msgs.append({"id": nid, "op": gen.g_op(rng, kind, depth=rng.choice([1, 2, 3])), "controls": gen.g_controls(rng)})
+            msgs.append({"id": nid, "op": gen.g_op(rng, kind, depth=rng.choice([1, 2, 3]), allow_custom=custom),
+                         "controls": gen.g_controls(rng, allow_custom=custom) if not custom or rng.random() < 0.5 else [gen.g_control(rng, True) for _ in range(2)]})
             nid += rng.choice([1, 1, 5])
-    elif prep == "client_mid":
+    elif prep in ("client_mid", "client_registered"):
         # ids 1 (extended), 2 (search), 3 (extended) are outstanding
         seq = []
         for _ in range(rng.choice([0, 1, 2, 4])):
@@ -73,7 +82,8 @@ def valid_stream(rng, prep):
             op = gen.g_op(rng, kind, depth=1)
             if kind == "extResp" and op.get("name") is not None and C.untx(op["name"]) == NOTICE:
                 op["name"] = None
-            msgs.append({"id": i, "op": op, "controls": gen.g_controls(rng)})
+            msgs.append({"id": i, "op": op, "controls": gen.g_controls(rng, allow_custom=custom) if not custom or rng.random() < 0.5
+                         else [gen.g_control(rng, True) for _ in range(2)]})
     else:
         msgs = []
     return msgs
